@@ -346,6 +346,12 @@ class Rig:
             return None
         if kind == 'raise':
             raise RuntimeError('scripted failure of %r' % uid)
+        if kind == 'slowraise':
+            def slowraise():       # a coroutine handler that fails after it was suspended
+                for _ in range(sc.get('slow', 1)):
+                    yield
+                raise RuntimeError('scripted failure of %r' % uid)
+            return slowraise()
 
         def slow():
             for _ in range(sc.get('slow', 1)):
